@@ -563,3 +563,93 @@ func CursorSweep(run *ev.Run, backend string, withWriteTx bool) {
 	}
 	run.Sample(map[string]interface{}{"backend": backend, "key_universe": cursorKeys, "seek_targets": cursorTargets, "empty_values": []string{"bb", "d"}})
 }
+
+// RangeNameLengthSweep: the same small range sweep for every length of the indexed field's name (and a few collection
+// name lengths): key prefixes of every length up to maxLen, so that nothing depends on how a prefix buffer happens to
+// be sized.
+func RangeNameLengthSweep(run *ev.Run, backend string, maxLen int) {
+	var smu sync.Mutex
+	stores := map[int]store.Store{}
+	getStore := func(w int) store.Store {
+		smu.Lock()
+		defer smu.Unlock()
+		if stores[w] == nil {
+			dir := ""
+			if backend != drv.Badger {
+				dir = drv.NewScratchDir()
+			}
+			st, err := drv.OpenRaw(backend, dir)
+			if err != nil {
+				panic(err)
+			}
+			stores[w] = st
+		}
+		return stores[w]
+	}
+	defer func() {
+		for _, st := range stores {
+			st.Close()
+		}
+	}()
+	entries := []idxEntry{{"k1", ID(1)}, {"k3", ID(2)}, {"k3", ID(3)}, {"k5", ID(4)}, {"k7", ID(5)}, {int64(1), ID(6)}, {int64(2), ID(7)}, {nil, ID(8)}}
+	bounds := []interface{}{nil, "k3", "k7", "k", int64(1), int64(2)}
+	ranges := allRangesOver(bounds)
+	ParallelFor(maxLen, 0, func(w, li int) {
+		L := li + 1
+		st := getStore(w)
+		for _, coll := range []string{"c", "customer_orders", strings.Repeat("n", 40)} {
+			field := strings.Repeat("f", L)
+			if err := vstore.Restore(st, nil); err != nil {
+				panic(err)
+			}
+			tx, _ := st.Begin(true)
+			idx := index.CreateIndex(coll, field, index.SingleField, tx)
+			for _, e := range entries {
+				idx.Add(e.id, m.Clone(e.v), -1)
+			}
+			tx.Set([]byte("coll:"+coll), []byte("{}"))
+			tx.Commit()
+			rtx, _ := st.Begin(false)
+			ridx := index.CreateIndex(coll, field, index.SingleField, rtx).(index.RangeIndex)
+			for ri := range ranges {
+				r := ranges[ri]
+				for _, reverse := range []bool{false, true} {
+					got := []string{}
+					var rerr error
+					pan := safely(func() {
+						rerr = ridx.IterateRange(r.clover(), reverse, func(id string) error { got = append(got, id); return nil })
+					})
+					run.Add("evaluations", 1)
+					want := 0
+					for _, e := range entries {
+						if r.contains(e.v) {
+							want++
+						}
+					}
+					bad := pan != nil || rerr != nil || len(got) != want
+					if !bad {
+						seen := map[string]bool{}
+						for _, id := range got {
+							ok := false
+							for _, e := range entries {
+								if e.id == id && r.contains(e.v) && !seen[id] {
+									ok = true
+								}
+							}
+							seen[id] = true
+							if !ok {
+								bad = true
+							}
+						}
+					}
+					if bad {
+						run.Violation(fmt.Sprintf("name-length|%s|rev=%v|%s", backend, reverse, rangeClass(&r)), fmt.Sprintf("[%s] collection name of %d bytes, field name of %d bytes, range %s, reverse=%v: yielded %v (err=%v panic=%v), expected %d entries", backend, len(coll), L, r, reverse, shortIDs(got), rerr, pan, want),
+							map[string]interface{}{"engine": "rangesweep-namelength", "backend": backend, "collection_name_length": len(coll), "field_name_length": L, "range": r.String(), "reverse": reverse})
+					}
+				}
+			}
+			rtx.Rollback()
+			run.Distinct("contents", fmt.Sprintf("len%d/%d", len(coll), L))
+		}
+	})
+}
